@@ -117,6 +117,31 @@ def run_limit(acc, accept):
         acc.outcome("refused")
     except MemoryError:
         acc.viol("indexing:oversize-space-not-refused", dict(layer="limit", size=ms + 1), expected="ValueError")
+    # the limit applies to the EFFECTIVE size: a model with more visible units than the limit asked for its
+    # own space (size omitted / None / 0 = "use num_visible") is refused just like an explicit oversize request
+    L = lib()
+    big = L.PositiveWaveFunction(ms + 1, 1, gpu=False)
+
+    class Small(L.ComplexWaveFunction):
+        @property
+        def max_size(self):
+            return 3
+    small = Small(4, 1, gpu=False)
+    for nm, fn in (("default-size", lambda: big.generate_hilbert_space()), ("size=None", lambda: big.generate_hilbert_space(None)),
+                   ("size=0", lambda: big.generate_hilbert_space(0)), ("lowered-limit-default-size", lambda: small.generate_hilbert_space()),
+                   ("lowered-limit-explicit", lambda: small.generate_hilbert_space(4))):
+        acc.ev(1)
+        try:
+            r = fn()
+            acc.viol("indexing:oversize-space-not-refused:" + nm, dict(layer="limit", form=nm), observed=list(r.shape), expected="ValueError")
+            del r
+        except ValueError:
+            acc.outcome("refused:" + nm)
+        except MemoryError:
+            acc.viol("indexing:oversize-space-not-refused:" + nm, dict(layer="limit", form=nm), expected="ValueError")
+    acc.ev(1)
+    if tuple(call(small.generate_hilbert_space, 3).shape) != (8, 3):
+        acc.viol("indexing:space-at-lowered-limit-wrong-or-refused", dict(layer="limit", size=3))
     if accept:
         acc.ev(1)
         sp = call(st.generate_hilbert_space, ms)
